@@ -40,7 +40,7 @@ def _countries(tier):
 
 def describe(tier):
     return {"countries": len(_countries(tier)), "maps": MAPS, "map_ids": MAP_IDS, "configuration": CONFS, "behaviour": BEHS,
-            "prediction": PREDS, "versions": VERS, "solution_lists": "singles, all ordered pairs, triples over 6-core",
+            "prediction": PREDS, "versions": VERS, "solution_lists": "singles, all ordered pairs, triples over 6-core; planning-problem ids ascending and not", "edited_ids": [list(e) for e in EDITS],
             "exhaustive": True}
 
 
@@ -110,8 +110,50 @@ def _check_sid(kw, res):
     return True
 
 
+ATTR = {"coop": "cooperative", "country": "country_id", "map": "map_name", "map_id": "map_id", "conf": "configuration_id", "beh": "obstacle_behavior",
+        "pred": "prediction_id"}
+EDITS = [("map_id", 33), ("conf", 10), ("beh", "T"), ("pred", 3), ("pred", [2, 10, 3]), ("coop", None), ("country", None), ("map", "A9")]
+
+
+def _check_sid_edited(kw, field, value, res):
+    """an id that was printed / hashed / compared and then edited through its public attributes is a valid id like any other: it must print
+    and parse like an id constructed with the new values"""
+    from commonroad.scenario.scenario import ScenarioID
+    if field == "coop":
+        value = not kw.get("coop")
+    if field == "country":
+        value = "USA" if kw["country"] != "USA" else "DEU"
+    kw2 = dict(kw); kw2[field] = value
+    case = {"k": "sid-edit", "kw": kw, "field": field, "value": value}
+    res.evals += 1; res.transitions += 2; res.nontrivial += 1
+    try:
+        x = solspec.build_sid(kw)
+        str(x); hash(x); x == solspec.build_sid(kw)
+        setattr(x, ATTR[field], value)
+        fresh = solspec.build_sid(kw2)
+        s, sf = str(x), str(fresh)
+    except Exception as e:
+        res.violation(f"C13|ScenarioID|edited:{ATTR[field]}|raises:{type(e).__name__}", repr(e), case)
+        return
+    if s != sf:
+        res.violation(f"C13|ScenarioID|edited:{ATTR[field]}|print-mismatch", f"{kw} with {ATTR[field]}={value!r} assigned prints {s!r}; an id constructed with these values prints {sf!r}", case)
+        return
+    try:
+        y = ScenarioID.from_benchmark_id(s, x.scenario_version)
+    except Exception as e:
+        res.violation(f"C13|ScenarioID|edited:{ATTR[field]}|parse-raises:{type(e).__name__}", f"{s!r}: {e!r}", case)
+        return
+    if not (x == y and y == x and x == fresh) or str(y) != s:
+        res.violation(f"C13|ScenarioID|edited:{ATTR[field]}|parse-mismatch", f"{s!r}", case)
+    res.outcomes["sid-edited"] += 1
+
+
 def _sid_unit(unit, res):
     for c in unit["countries"]:
+        for coop, pred in itertools.product([False, True], [1, [1, 2]]):
+            kw = {"coop": coop, "country": c, "map": "Test", "map_id": 1, "conf": 1, "beh": "S", "pred": pred, "ver": "2020a"}
+            for field, value in EDITS:
+                _check_sid_edited(kw, field, value, res)
         for coop, mp, mid, conf, beh, pred, ver in itertools.product([False, True], MAPS, MAP_IDS, CONFS, BEHS, PREDS, VERS):
             kw = {"coop": coop, "country": c, "map": mp, "map_id": mid, "conf": conf, "beh": beh, "pred": pred, "ver": ver}
             if _check_sid(kw, res):
@@ -124,11 +166,11 @@ SIDS = [{"country": "ZAM", "map": "Test", "map_id": 1},
         {"coop": True, "country": "CHN", "map": "x9Y0", "map_id": 10, "conf": 10, "ver": "2018b"}]
 
 
-def _sol_spec(triples, sid, kinds=None):
+def _sol_spec(triples, sid, kinds=None, ids=None):
     pps = []
     for j, (m, vt, c) in enumerate(triples):
         kind = kinds[j] if kinds else m
-        pps.append({"id": j + 1, "model": m, "vtype": vt, "cost": c, "kind": kind, "t0": 0,
+        pps.append({"id": ids[j] if ids else j + 1, "model": m, "vtype": vt, "cost": c, "kind": kind, "t0": 0,
                     "states": [solspec.default_vec(kind, j)]})
     return {"sid": sid, "pps": pps, "ct": None, "proc": None, "date": [2020, 1, 2, 3, 4, 5, 0]}
 
@@ -191,12 +233,14 @@ def run_unit(unit, tier):
         for b in triples:
             sid = SIDS[(unit["first"] + triples.index(b)) % len(SIDS)]
             _check_sol(_sol_spec([a, b], sid), res)
+            _check_sol(_sol_spec([a, b], sid, ids=[7, 3]), res)     # planning-problem ids not in ascending order
         res.sample({"pair-first": a, "n_second": len(triples)}, 1)
     elif k == "sol3":
         core = [t for t in triples if t in (("PM", 1, "JB1"), ("KS", 2, "SA1"), ("ST", 3, "WX1"), ("MB", 4, "TR1"),
                                             ("KST", 4, "SM1"), ("PM", 2, "MW1"))]
         for tr in itertools.product(core, repeat=3):
             _check_sol(_sol_spec(list(tr), SIDS[1]), res)
+            _check_sol(_sol_spec(list(tr), SIDS[1], ids=[1, 3, 2]), res)
         res.sample({"triples-over": core}, 1)
     return res
 
@@ -205,6 +249,8 @@ def replay(case):
     res = Result()
     if case["k"] == "sid":
         _check_sid(case["kw"], res)
+    elif case["k"] == "sid-edit":
+        _check_sid_edited(case["kw"], case["field"], case["value"], res)
     else:
         _check_sol(case["spec"], res)
     return [(s, d) for s, d, _ in res.violations]
